@@ -79,6 +79,10 @@ register("C03", "exploration", "E1 explore", "exhaustive enumeration of hostile 
          "Archives are built by the independent writer; every sequence is extracted under 7 configurations (destination absolute/relative/None, pre-populated, stream=sequential vs path=per-member folders with workers in forward and reverse order). Oracle: byte/mode/mtime/ctime snapshot of everything around the destination before vs after, plus an audit-hook tripwire. The hostile space is a small alphabet closed under the shortcuts visible in the code (lexical canonicalisation, link creation, duplicate names), so exhaustive sequences are the right level.",
          "Runs as uid 0. Interleavings of the parallel branch are reduced to the two extreme orders (C13 explores schedules on benign archives).", "DESIGN.md section 5 C03")
 
+register("C13", "model_checking", "E2 sched", "stateless model checking of the real threads under a controlled scheduler with iterative preemption bounding; second line-level pass; schedules replayed twice before exploring",
+         "Every interleaving of the extraction workers at visible operations (thread start/join, archive open, every output create/write, queue operations) within preemption bound 2 (thorough 3; all interleavings for the smallest harnesses) on 2..4-folder archives, intact and with one folder damaged at each position in three ways, factory and directory sinks, and two independent sessions on one file; a line-level pass makes every py7zr source line inside workers a scheduling point. Oracle: sequential result in every schedule, no deadlock, no straggler, worker errors reach the caller.",
+         "Timed waits fire only at quiescence; codec calls are atomic. The process-parallel option is not under the scheduler: it is compared with the sequential result on 12 free-running executions (its two deterministic defects are known findings).", "DESIGN.md section 5 C13")
+
 NOT_YET = {}
 
 
